@@ -76,6 +76,12 @@ def ops(values=(1, 2)):
     out.append(["create", "K1", {"a": 1}])
     out.append(["set", "F1", {"sid": "hamlet/other"}])
     out.append(["update", "V1", {"sid": "x", "a": 5}])
+    # several attributes in one set() call
+    out.append(["setkw", "F1", {"a": 3, "b": 3}])
+    out.append(["setmix", "F1", {"a": 4, "c": 4}])
+    # text outside ASCII, and a string as os.fsdecode gives it for a file name that is not valid UTF-8 (lone surrogate)
+    out.append(["set", "F1", {"c": "\u00e9t\u00e9 \u00fc\u4e16"}])
+    out.append(["update", "F1", {"c": "na\u00efve", "n": "f\udce9.ma"}])
     return out
 
 
@@ -161,6 +167,9 @@ def apply_real(C, op, reset=True):
             r = w.set(s, k, v)
         elif kind == "setkw":
             r = w.set(s, **arg)
+        elif kind == "setmix":          # first pair as attribute / value, the others as keyword arguments: one call, one write
+            (k, v), *rest = arg.items()
+            r = w.set(s, k, v, **dict(rest))
         else:
             r = w.update(s, arg)
     except SpilException:
@@ -290,6 +299,18 @@ def check_state(C, model, hist, newproc=False):
             obs2 = json.loads(line[-1][4:])
             for v in diff(obs2, exp):
                 v["signature"] = "new-process/" + v["signature"]
+                out.append(v)
+        # ... and by a new process on a machine set up differently: plain C locale (ASCII), no UTF-8 mode
+        env2 = dict(os.environ, LC_ALL="C", LANG="C", PYTHONUTF8="0", PYTHONCOERCECLOCALE="0")
+        p = subprocess.run([sys.executable, "-m", "props.c15", "observe"], capture_output=True, text=True, env=env2,
+                           cwd=os.path.dirname(os.path.dirname(os.path.abspath(__file__))))
+        line = [l for l in p.stdout.splitlines() if l.startswith("OBS ")]
+        if p.returncode != 0 or not line:
+            out.append(dict(signature="new-process-observer-failed/ascii-locale", observed=p.stderr[-300:], expected="observation"))
+        else:
+            obs2 = json.loads(line[-1][4:])
+            for v in diff(obs2, exp):
+                v["signature"] = "new-process/ascii-locale/" + v["signature"]
                 out.append(v)
     return out
 
